@@ -426,8 +426,13 @@ int cif_parse(FILE *stream, struct cif_parse_opts_s *options, cif_tp **cifp) {
                  */
                 encoding_name = UTF8;
             } else if ((options->prefer_cif2 >= 0) && (count >= MAGIC_LENGTH + MAGIC_EXTRA)
-                    && (memcmp(char_buffer, CIF2_UTF8_MAGIC, MAGIC_LENGTH + MAGIC_EXTRA) == 0)) {
-                /* FIXME: should really test whether the magic number is followed by whitespace (which is required) */
+                    && (memcmp(char_buffer, CIF2_UTF8_MAGIC, MAGIC_LENGTH + MAGIC_EXTRA) == 0)
+                    && ((count == MAGIC_LENGTH + MAGIC_EXTRA)
+                            || (char_buffer[MAGIC_LENGTH + MAGIC_EXTRA] == 0x20)
+                            || (char_buffer[MAGIC_LENGTH + MAGIC_EXTRA] == 0x09)
+                            || (char_buffer[MAGIC_LENGTH + MAGIC_EXTRA] == 0x0a)
+                            || (char_buffer[MAGIC_LENGTH + MAGIC_EXTRA] == 0x0d))) {
+                /* the magic code is a whole token: it is followed by whitespace or by the end of the input */
                 /* the input carries a CIF2 binary magic number, and the user does not insist on CIF1, so choose UTF8 */
                 cif_version = 2;
                 encoding_name = UTF8;
